@@ -703,6 +703,28 @@ theorem ifPurge_sim (hs : Sim cfg o now st m) (hpos : 0 < now) (hcn : o.cache = 
   · simp only [hc, Bool.not_false, if_true]
     exact ⟨hs, rfl⟩
 
+/-! ### The decision switch of `MaintainRecordStates`, with the comparisons of the source (`PB.Gen.DbTime`) -/
+
+set_option linter.unusedSimpArgs false in
+/-- The source's first case ("expired, not yet marked deleted") only fires on a record `CheckValidity` already
+    rejects, and the stamp it is marked with is a deletion stamp (positive). -/
+theorem Backend.expiredCase_dead (b : Backend) (m : Meta) (now thr : Int) (sh : Bool)
+    (h : b.expiredCase m now thr sh = true) : m.valid now = false ∧ b.expiredMark m now thr > 0 := by
+  cases b <;>
+    simp only [Backend.expiredCase, Backend.expiredMark, PB.Gen.DbTime.hashmapExpired, PB.Gen.DbTime.bboltExpired,
+      PB.Gen.DbTime.hashmapMark, PB.Gen.DbTime.bboltMark, Meta.valid, Bool.and_eq_true, Bool.or_eq_true,
+      Bool.not_eq_true', decide_eq_true_eq, decide_eq_false_iff_not] at h ⊢ <;>
+    (try cases h) <;> (constructor <;> (try split) <;> (try split) <;> (first | rfl | omega | grind))
+
+set_option linter.unusedSimpArgs false in
+/-- The source's second case (physical removal) only fires on a record that is marked deleted. -/
+theorem Backend.removeCase_dead (b : Backend) (m : Meta) (now thr : Int) (sh : Bool)
+    (h : b.removeCase m now thr sh = true) : m.deleted > 0 := by
+  cases b <;>
+    simp only [Backend.removeCase, PB.Gen.DbTime.hashmapRemove, PB.Gen.DbTime.bboltRemove, Bool.and_eq_true, Bool.or_eq_true,
+      Bool.not_eq_true', decide_eq_true_eq, decide_eq_false_iff_not] at h <;>
+    (first | (cases h; done) | omega | grind)
+
 theorem maintainRec_key (cfg : Cfg) (thr : Int) (r r' : Rec) (h : maintainRec cfg now thr r = some r') : r'.key = r.key := by
   unfold maintainRec at h
   split at h
@@ -716,16 +738,16 @@ theorem maintainRec_key (cfg : Cfg) (thr : Int) (r r' : Rec) (h : maintainRec cf
 /-- Maintenance leaves a valid record alone. -/
 theorem maintainRec_valid (cfg : Cfg) (thr : Int) (r : Rec) (hv : r.md.valid now = true) :
     maintainRec cfg now thr r = some r := by
-  unfold Meta.valid at hv
   unfold maintainRec
-  by_cases hd : r.md.deleted > 0
-  · simp [hd] at hv
-  · simp only [hd, if_false] at hv
-    by_cases he : r.md.expires > 0 ∧ r.md.expires < now
-    · simp [he] at hv
-    · have h1 : ¬ (r.md.deleted = 0 ∧ r.md.expires > 0 ∧ r.md.expires < now) := fun h => he h.2
-      have h2 : ¬ (r.md.deleted > 0 ∧ (!cfg.shadow ∨ r.md.deleted < thr)) := fun h => hd h.1
-      simp only [h1, h2, if_false]
+  have h1 : cfg.backend.expiredCase r.md now thr cfg.shadow = false := by
+    cases h : cfg.backend.expiredCase r.md now thr cfg.shadow with
+    | false => rfl
+    | true => have := (Backend.expiredCase_dead _ _ _ _ _ h).1; rw [hv] at this; cases this
+  have h2 : cfg.backend.removeCase r.md now thr cfg.shadow = false := by
+    cases h : cfg.backend.removeCase r.md now thr cfg.shadow with
+    | false => rfl
+    | true => exact absurd (Backend.removeCase_dead _ _ _ _ _ h) (Meta.valid_not_deleted hv)
+  simp [h1, h2]
 
 /-- Whatever maintenance does to a record that is not valid, the result is not valid. -/
 theorem maintainRec_invalid (cfg : Cfg) (thr : Int) (r : Rec) (hv : r.md.valid now = false) :
@@ -734,7 +756,8 @@ theorem maintainRec_invalid (cfg : Cfg) (thr : Int) (r : Rec) (hv : r.md.valid n
   split
   · rename_i h
     split
-    · rw [vis_of_invalid]; rw [stored_md]; apply Meta.deleted_invalid; simp; exact h.2.1
+    · rw [vis_of_invalid]; rw [stored_md]; apply Meta.deleted_invalid; simp only
+      exact (Backend.expiredCase_dead _ _ _ _ _ h).2
     · rfl
   · split
     · rfl
